@@ -12,11 +12,11 @@ def register(prop, J):
          jobs=[
              # every job runs ^TestC19 of the same package; C19_PART selects its share (replays ignore the selection)
              J("fold-v2", "v2", "d2props", "^TestC19", checks=(20000, 1000000), shards=(8, 16), env={"C19_PART": "fold"}),
-             J("select-v2", "v2", "d2props", "^TestC19", checks=(2000, 100000), shards=(8, 16), env={"C19_PART": "select", "GOGC": "800"}),
-             J("edge-v2", "v2", "d2props", "^TestC19", checks=(4000, 200000), shards=(4, 16), env={"C19_PART": "edge", "GOGC": "800"}),
+             J("select-v2", "v2", "d2props", "^TestC19", checks=(2000, 60000), shards=(8, 16), env={"C19_PART": "select", "GOGC": "800"}),
+             J("edge-v2", "v2", "d2props", "^TestC19", checks=(20000, 1000000), shards=(1, 8), env={"C19_PART": "edge", "GOGC": "800"}),
              J("fold-v1", "v1", "d2props", "^TestC19", checks=(20000, 1000000), shards=(8, 16), env={"C19_PART": "fold"}),
-             J("select-v1", "v1", "d2props", "^TestC19", checks=(2000, 100000), shards=(8, 16), env={"C19_PART": "select", "GOGC": "800"}),
-             J("edge-v1", "v1", "d2props", "^TestC19", checks=(4000, 200000), shards=(4, 16), env={"C19_PART": "edge", "GOGC": "800"}),
+             J("select-v1", "v1", "d2props", "^TestC19", checks=(2000, 60000), shards=(8, 16), env={"C19_PART": "select", "GOGC": "800"}),
+             J("edge-v1", "v1", "d2props", "^TestC19", checks=(20000, 1000000), shards=(1, 8), env={"C19_PART": "edge", "GOGC": "800"}),
          ],
          level_text="generated-input search against a reference model written from the property text (fold of the event history, "
                     "eligible-host set): every event history up to the stated length over a small alphabet is enumerated and each "
